@@ -130,12 +130,20 @@ def main(run):
             sv = er.stale_variant(run.rng, spec)
             if sv is None:
                 continue
-            s2, desc = sv
-            d = spec.name + "s"
-            er.l2.write_files(batch.mod / d, eg.render_go(s2))
-            batch.copy_generated(spec.name, d)
-            batch.extra_dirs[d] = {}
-            stale.append((spec, s2, desc, d))
+            variants = [sv]
+            if len(spec.targets) > 1:
+                # one more variant per further target type: a constant of exactly that type changes
+                # (in an all-in-one output every type must keep its own guard)
+                for t in spec.targets[1:]:
+                    sv2 = er.stale_variant(run.rng, spec, of_type=t.tname)
+                    if sv2 is not None:
+                        variants.append(sv2)
+            for vi, (s2, desc) in enumerate(variants):
+                d = spec.name + "s" + (str(vi) if vi else "")
+                er.l2.write_files(batch.mod / d, eg.render_go(s2))
+                batch.copy_generated(spec.name, d)
+                batch.extra_dirs[d] = {}
+                stale.append((spec, s2, desc, d))
         batch.build_extra()
         run.log("batch %d: %d stale variants built" % (bi, len(stale)))
         rows = batch.coq_cases()
